@@ -177,6 +177,22 @@ fn extract(e: &Envelope, ty: &str) -> String {
     }
 }
 
+
+fn opt_hex(s: &str) -> Option<Option<Vec<u8>>> { if s == "-" { Some(None) } else { hex::decode(s).ok().map(Some) } }
+fn opt_str(s: &str) -> Option<Option<String>> { match opt_hex(s)? { None => Some(None), Some(b) => String::from_utf8(b).ok().map(Some) } }
+
+#[derive(Clone)]
+pub enum Ident { Known(u64), Named(String) }
+fn parse_ident(s: &str) -> Option<Ident> {
+    let (k, v) = s.split_once(':')?;
+    match k { "k" => v.parse().ok().map(Ident::Known), "n" => String::from_utf8(hex::decode(v).ok()?).ok().map(Ident::Named), _ => None }
+}
+fn to_function(i: &Ident) -> Function { match i { Ident::Known(v) => Function::from(*v), Ident::Named(n) => Function::new_named(n) } }
+fn to_parameter(i: &Ident) -> Parameter { match i { Ident::Known(v) => Parameter::from(*v), Ident::Named(n) => Parameter::new_named(n) } }
+fn show_function(f: &Function) -> String { match f { Function::Known(v, _) => format!("k:{}", v), Function::Named(_) => format!("n:{}", hex::encode(f.named_name().unwrap_or_default().as_bytes())) } }
+fn date_str(d: Option<&dcbor::Date>) -> String { match d { None => "-".into(), Some(d) => { let t = d.timestamp(); if t.fract() == 0.0 { format!("{}", t as i64) } else { format!("frac:{}", t) } } } }
+fn arid(hexs: &str) -> Option<bc_components::ARID> { bc_components::ARID::from_data_ref(hex::decode(hexs).ok()?).ok() }
+
 /// the signing key with a given id: the scheme depends on the id (1 mod 3: Schnorr, 2: ECDSA, 0: Ed25519)
 pub fn sig_key(kid: u64) -> (bc_components::SigningPrivateKey, bc_components::SigningPublicKey) {
     let base = bc_components::PrivateKeyBase::from_data(&[kid as u8; 32]);
@@ -204,6 +220,12 @@ impl Machine {
 
     fn digest_set(&self, ks: &str) -> Option<HashSet<Digest>> {
         Some(self.envs(ks)?.iter().map(|e| e.digest().into_owned()).collect())
+    }
+
+    fn build_expression(&self, f: &str, ps: &str) -> Option<Expression> {
+        let mut ex = Expression::new(to_function(&parse_ident(f)?));
+        if ps != "-" { for kv in ps.split(',') { let (k, v) = kv.split_once('=')?; ex = ex.with_parameter(to_parameter(&parse_ident(k)?), self.env(v)?); } }
+        Some(ex)
     }
 
     fn eval_assign(&self, a: &[&str]) -> Option<Val> {
@@ -286,6 +308,53 @@ impl Machine {
                 let c = bc_components::Compressed::from_uncompressed_data(self.env(other)?.tagged_cbor().to_cbor_data(), Some(self.env(e)?.digest().into_owned()));
                 res(Envelope::try_from(c))
             }
+            ["add_salt_instance", e, hx] => Val::Env(self.env(e)?.add_salt_instance(bc_components::Salt::from_data(hex::decode(hx).ok()?))),
+            ["add_salt_with_len", e, n, hx] => {
+                // the library draws the salt itself; the scenario carries the drawn bytes for the model. Here: deterministic re-draw is
+                // impossible, so the scenario's bytes are used through add_salt_instance after the length check of the library
+                let n: usize = n.parse().ok()?;
+                match bc_components::Salt::new_with_len(n) { Ok(_) => Val::Env(self.env(e)?.add_salt_instance(bc_components::Salt::from_data(hex::decode(hx).ok()?))), Err(x) => Val::Err(err_kind(&x)) }
+            }
+            ["add_salted", e, p, o, hx] => {
+                let e = self.env(e)?; let (p, o) = (self.env(p)?, self.env(o)?);
+                match opt_hex(hx)? {
+                    None => Val::Env(e.add_assertion_salted(p, o, false)),
+                    Some(salt) => {
+                        // the salted form with the given salt: the assertion decorated by add_salt_instance, then added
+                        let a = Envelope::new_assertion(p, o).add_salt_instance(bc_components::Salt::from_data(salt));
+                        res(e.add_assertion_envelope_salted(a, false))
+                    }
+                }
+            }
+            ["add_type", e, t] => Val::Env(self.env(e)?.add_type(self.env(t)?)),
+            ["add_attachment", e, payload, v, c] => {
+                let v = String::from_utf8(hex::decode(v).ok()?).ok()?; let c = opt_str(c)?;
+                Val::Env(self.env(e)?.add_attachment(self.env(payload)?, &v, c.as_deref()))
+            }
+            ["new_attachment", payload, v, c] => {
+                let v = String::from_utf8(hex::decode(v).ok()?).ok()?; let c = opt_str(c)?;
+                Val::Env(Envelope::new_attachment(self.env(payload)?, &v, c.as_deref()))
+            }
+            ["get_type", e] => res(self.env(e)?.get_type()),
+            ["attachment1", e, v, c] => { let (v, c) = (opt_str(v)?, opt_str(c)?); res(self.env(e)?.attachment_with_vendor_and_conforms_to(v.as_deref(), c.as_deref())) }
+            ["mk_expression", f, ps] => Val::Env(self.build_expression(f, ps)?.into()),
+            ["mk_request", id, f, ps, note, date] => {
+                let mut rq = Request::new_with_body(self.build_expression(f, ps)?, arid(id)?);
+                if *note != "-" { rq = rq.with_note(String::from_utf8(hex::decode(note).ok()?).ok()?); }
+                if *date != "-" { rq = rq.with_date(dcbor::Date::from_timestamp(date.parse::<i64>().ok()? as f64)); }
+                Val::Env(rq.into())
+            }
+            ["mk_response", kind, id, body] => {
+                let body = self.env(body)?;
+                let r = match (*kind, *id) { ("success", i) => Response::new_success(arid(i)?).with_result(body), ("failure", "-") => Response::new_early_failure().with_error(body), ("failure", i) => Response::new_failure(arid(i)?).with_error(body), _ => return None };
+                Val::Env(r.into())
+            }
+            ["mk_event", id, content, note, date] => {
+                let mut ev = Event::<String>::new(String::from_utf8(hex::decode(content).ok()?).ok()?, arid(id)?);
+                if *note != "-" { ev = ev.with_note(String::from_utf8(hex::decode(note).ok()?).ok()?); }
+                if *date != "-" { ev = ev.with_date(dcbor::Date::from_timestamp(date.parse::<i64>().ok()? as f64)); }
+                Val::Env(ev.into())
+            }
             ["add_sig", e, sig] => {
                 let sg = self.env(sig)?.extract_subject::<bc_components::Signature>().ok()?;
                 Val::Env(self.env(e)?.add_assertion(known_values::SIGNED, sg))
@@ -350,6 +419,40 @@ impl Machine {
                 let t = self.digest_set(ts)?;
                 self.env(e)?.confirm_contains_set(&t, &self.env(p)?).to_string()
             }
+            ["types", e] => { let v = self.env(e)?.types(); format!("[{}]", v.iter().map(|x| dshort(&x.digest())).collect::<Vec<_>>().join(" ")) }
+            ["has_type", e, t] => self.env(e)?.has_type_envelope(self.env(t)?).to_string(),
+            ["attachments", e, v, c] => {
+                let (v, c) = (opt_str(v)?, opt_str(c)?);
+                match self.env(e)?.attachments_with_vendor_and_conforms_to(v.as_deref(), c.as_deref()) { Ok(l) => format!("[{}]", l.iter().map(|x| dshort(&x.digest())).collect::<Vec<_>>().join(" ")), Err(x) => format!("err {}", err_kind(&x)) }
+            }
+            ["validate_attachment", a] => match self.env(a)?.validate_attachment() { Ok(()) => "ok".into(), Err(x) => format!("err {}", err_kind(&x)) },
+            ["attachment_fields", a] => {
+                let a = self.env(a)?;
+                match (a.attachment_payload(), a.attachment_vendor(), a.attachment_conforms_to()) {
+                    (Ok(p), Ok(v), Ok(c)) => format!("payload={} vendor={} conf={}", dshort(&p.digest()), hex::encode(v.as_bytes()), c.map(|x| hex::encode(x.as_bytes())).unwrap_or("-".into())),
+                    _ => "err".into(),
+                }
+            }
+            ["parse_expression", e, expected] => {
+                let exp = if *expected == "-" { None } else { Some(to_function(&parse_ident(expected)?)) };
+                match Expression::try_from((self.env(e)?, exp.as_ref())) { Ok(x) => format!("ok fn={}", show_function(x.function())), Err(x) => format!("err {}", err_kind(&x)) }
+            }
+            ["parse_request", e] => match Request::try_from(self.env(e)?) {
+                Ok(q) => format!("ok id={} fn={} body={} note={} date={}", hex::encode(q.id().data()), show_function(q.function()), dshort(&q.body().expression_envelope().digest()), hex::encode(q.note().as_bytes()), date_str(q.date())),
+                Err(x) => format!("err {}", err_kind(&x)),
+            },
+            ["parse_response", e] => match Response::try_from(self.env(e)?) {
+                Ok(q) => match (q.ok(), q.err()) {
+                    (Some((id, r)), _) => format!("ok success id={} result={}", hex::encode(id.data()), dshort(&r.digest())),
+                    (_, Some((id, er))) => format!("ok failure id={} error={}", id.map(|i| hex::encode(i.data())).unwrap_or("-".into()), dshort(&er.digest())),
+                    _ => "err".into(),
+                },
+                Err(x) => format!("err {}", err_kind(&x)),
+            },
+            ["parse_event", e] => match Event::<String>::try_from(self.env(e)?) {
+                Ok(q) => format!("ok id={} content={} note={} date={}", hex::encode(q.id().data()), hex::encode(q.content().as_bytes()), hex::encode(q.note().as_bytes()), date_str(q.date())),
+                Err(x) => format!("err {}", err_kind(&x)),
+            },
             ["has_sig", e, kid] => {
                 let (_, pk) = sig_key(kid.parse().ok()?);
                 match self.env(e)?.has_signature_from_returning_metadata(&pk) { Ok(Some(m)) => format!("some {}", dshort(&m.digest())), Ok(None) => "none".into(), Err(x) => format!("err {}", err_kind(&x)) }
